@@ -29,8 +29,8 @@ def _abs(line):
 def run_case(job):
     gfapy = core._load_gfapy()
     cid, text = job
-    signal.signal(signal.SIGALRM, core._alarm)
-    signal.setitimer(signal.ITIMER_REAL, 10.0)
+    signal.signal(signal.SIGVTALRM, core._alarm)
+    signal.setitimer(signal.ITIMER_VIRTUAL, 10.0)
     rec = {"id": cid, "l": project.abstract_text(text, "gfa1"), "res": "ok", "exc": ""}
     empty = project.abstract_text("L\t?\t+\t?\t+\t*", "gfa1")
     rec.update(c1=empty, c2=empty, after=empty, c1after=empty, rl=-1, ql=-1, crl=-1, cql=-1, tests=[])
@@ -76,7 +76,7 @@ def run_case(job):
     except BaseException as e:  # noqa
         rec["res"], rec["exc"] = project.errclass(e), type(e).__name__
     finally:
-        signal.setitimer(signal.ITIMER_REAL, 0)
+        signal.setitimer(signal.ITIMER_VIRTUAL, 0)
     return rec
 
 
